@@ -57,13 +57,15 @@ PROPS = {
         rule="bep44 engine: CheckIncoming over the full 7^4 x {same,other value} seq/cas grid {1,2,3,0,-1,MinInt64,MaxInt64}; "
              "Wrapper histories put;put;get over that grid, expiry boundary 0/60/119/120/121/500 min with and without refresh, random "
              "3-10 op histories over 4 targets; concurrent Wrapper.Put/Get on a store yielding at every Get/Put/Del: ALL interleavings "
-             "of 2 threads, 3 threads sampled (quick) / all (thorough); real dht.Server on a fake conn: inbound put/get and Server.Put. "
+             "of 2 threads, 3 threads sampled (quick) / all (thorough); real dht.Server on a fake conn: inbound put/get and Server.Put, "
+             "stored and named seqs at the int64 extremes; store faults: chosen Get/Put/Del calls of the underlying Store fail with a "
+             "non-ErrItemNotFound error during Wrapper.Put/Get, inbound put/get and Server.Put (model Bep44Fault.v). "
              "A case is distinct by its full input text; non-trivial = it executes at least one store call",
         trusted=["sync.Mutex provides mutual exclusion (modelled as a lock; goroutine wait states read from runtime.Stack)",
                  "interleaving granularity = the underlying Store's Get/Put/Del calls",
                  "virtual time via VerifAge in whole minutes; real time between operations < 1 min",
                  "crypto/ed25519 and crypto/sha1 (ed_verify is a parameter fed from the harness verdict table; sha1 is Dht.Sha1.sha1)"],
-        assumptions=["the underlying Store is a finite map (bep44.Memory)"],
+        assumptions=["the underlying Store is a finite map (bep44.Memory) whose calls either take effect or fail without effect"],
     ),
     "C12": dict(
         engines=["bep44", "server"],
